@@ -23,11 +23,36 @@ import (
 )
 
 type c19 struct {
-	run   *ev.Run
-	mu    sync.Mutex
-	eval  int64
-	kinds map[string]int64
-	notes map[string]int
+	run       *ev.Run
+	mu        sync.Mutex
+	eval      int64
+	kinds     map[string]int64
+	notes     map[string]int
+	kbOps     int64               // keybase operations executed
+	kbNontriv int64               // keybase programs in which an operation succeeded and one was refused
+	kbStates  map[uint64]struct{} // distinct final (keybase 1, keybase 2) model states reached
+}
+
+func (c *c19) kbNote(nops, succ int, m1, m2 kbModel) {
+	var parts []string
+	for a, p := range m1 {
+		parts = append(parts, "1:"+a+"="+p)
+	}
+	for a, p := range m2 {
+		parts = append(parts, "2:"+a+"="+p)
+	}
+	sort.Strings(parts)
+	h := hashStr(strings.Join(parts, ";"))
+	c.mu.Lock()
+	c.kbOps += int64(nops)
+	if succ > 0 && succ < nops {
+		c.kbNontriv++
+	}
+	if c.kbStates == nil {
+		c.kbStates = map[uint64]struct{}{}
+	}
+	c.kbStates[h] = struct{}{}
+	c.mu.Unlock()
 }
 
 func (c *c19) fail(sig, what string, rep interface{}) {
@@ -360,6 +385,7 @@ func (c *c19) runKbProgramFrom(mk func() (keys.Keybase, func()), ops []kbOp, pro
 		backend += "(key 5 pre-imported under \"pw\")"
 	}
 	created := ""
+	succ := 0
 	var names []string
 	for _, i := range prog {
 		names = append(names, ops[i].String())
@@ -471,6 +497,9 @@ func (c *c19) runKbProgramFrom(mk func() (keys.Keybase, func()), ops []kbOp, pro
 				m2[ahex] = "pw2"
 			}
 		}
+		if err == nil {
+			succ++
+		}
 		if (err == nil) != okWant {
 			fail(fmt.Sprintf("%s|ok=%v-want=%v", o.kind, err == nil, okWant), "step %d %s: returned err=%v, model expects success=%v (stored passphrase %q, exists=%v)", step, o, err, okWant, cur, exists)
 			return
@@ -507,6 +536,7 @@ func (c *c19) runKbProgramFrom(mk func() (keys.Keybase, func()), ops []kbOp, pro
 			}
 		}
 	}
+	c.kbNote(len(prog), succ, m1, m2)
 	// at the end: every stored key opens with its model passphrase and with no other
 	for a, p := range m1 {
 		addr, _ := sdk.AddressFromHex(a)
@@ -634,13 +664,15 @@ func C19(tier string) int {
 		c.keybase(tier)
 	}
 	run.Set("evaluations", c.eval)
-	run.Set("states", c.kinds["keybase programs (in-memory, L=2)"]+c.kinds["keybase programs (in-memory, L=3)"]+c.kinds["keybase programs (in-memory, L=3, reduced alphabet)"]+c.kinds["keybase programs (lazy, L=2)"])
-	run.Set("transitions", c.eval)
-	run.Set("traces_validated_against_impl", c.eval)
-	run.Set("distinct_nontrivial", c.eval)
+	progs := c.kinds["keybase programs (in-memory, L=2)"] + c.kinds["keybase programs (in-memory, L=3)"] + c.kinds["keybase programs (in-memory, L=3, reduced alphabet)"] + c.kinds["keybase programs (lazy, L=2)"]
+	run.Set("states", int64(len(c.kbStates)))
+	run.Set("transitions", c.kbOps)
+	run.Set("traces_validated_against_impl", progs)
+	run.Set("distinct_nontrivial", c.kbNontriv)
+	run.Set("keybase_programs", progs)
 	run.Set("by_part", c.kinds)
 	run.Set("observations_not_judged", c.notes)
-	run.Set("rule", "single keys: 2 ed25519 + 2 secp256k1 keys x 5 messages, every (key,message) signed, every (key,message,signature) triple verified, every single-bit flip / truncation / extension of every valid signature; multisig: 4 key sets (mixed types, nested), every component list of length n-1, n, n+1 over {correct component per position, foreign key, other message, empty, zero}, garbage encodings, builders by index and by key in every insertion order; keybase: every program of L operations over 25 operations (import, create, update, delete, sign, export object, export+import into a second keybase; right/wrong/empty/unicode/1 KiB passphrases) on the in-memory keybase, and a reduced alphabet on the directory-backed lazy keybase, against a map model address -> passphrase")
+	run.Set("rule", "single keys: 2 ed25519 + 2 secp256k1 keys x 5 messages, every (key,message) signed, every (key,message,signature) triple verified, every single-bit flip / truncation / extension of every valid signature; multisig: 4 key sets (mixed types, nested), every component list of length n-1, n, n+1 over {correct component per position, foreign key, other message, empty, zero}, garbage encodings, builders by index and by key in every insertion order; keybase: every program of L operations over 25 operations (import, create, update, delete, sign, export object, export+import into a second keybase; right/wrong/empty/unicode/1 KiB passphrases) on the in-memory keybase, and a reduced alphabet on the directory-backed lazy keybase, against a map model address -> passphrase. evaluations = verifications + keybase programs; states = distinct final states of the keybase model (which address is stored under which passphrase, in both keybases) reached by the programs; transitions = keybase operations executed; traces_validated_against_impl = keybase programs (every one runs on the real keybase); distinct_nontrivial = keybase programs (distinct by construction) in which at least one operation succeeded and at least one was refused")
 	run.Sample(map[string]interface{}{"part": "multisig", "keys": "ed,nested,secp", "signatures": []string{"sig0", "foreign", "sig2"}, "oracle": "positional N-of-N rule with Tendermint primitives"})
 	run.Sample(map[string]interface{}{"part": "keybase", "program": []string{"importobj(key=5,\"pw\")", "update(key=5,\"bad\",\"new\")", "sign(key=5,\"pw\")"}})
 	run.Assume("Tendermint's ed25519/secp256k1 primitives are the trusted oracle for component signatures", "scrypt/AES-GCM are not re-verified; only the observable behaviour (opens with the right passphrase, not with another one) is checked")
